@@ -1,7 +1,7 @@
 SPECIFICATION Spec
 CONSTANTS
-  KindNames = {"nested", "inner"}
-  QFieldSeq <- FS5
+  KindNames = {"nested"}
+  QFieldSeq <- FS4
   MaxA = 2
   MaxC = 1
   MaxB = 1
